@@ -194,9 +194,14 @@ Proof. vm_compute. reflexivity. Qed.
 
 (* ---- non-vacuity: histories meeting the premises with non-trivial answers ---- *)
 
-Ltac wf_tac := unfold wf; repeat (apply Forall_cons; [vm_compute; try exact I; split; [discriminate|reflexivity]|]); apply Forall_nil.
+Ltac wf_tac := unfold wf; repeat (apply Forall_cons; [vm_compute; first [exact I | split; [discriminate|reflexivity]]|]); apply Forall_nil.
 Ltac fact_tac :=
-  first [ vm_compute; reflexivity | vm_compute; discriminate | vm_compute; intuition discriminate | wf_tac ].
+  match goal with
+  | |- wf _ => wf_tac
+  | |- _ <> _ => vm_compute; discriminate
+  | |- ~ _ => vm_compute; intuition discriminate
+  | |- _ = _ => vm_compute; reflexivity
+  end.
 Ltac each_conj := match goal with |- _ /\ _ => split; [fact_tac | each_conj] | _ => fact_tac end.
 
 Definition demo : list op :=
